@@ -1,3 +1,144 @@
-(* C10 - placeholder while the proofs are being written *)
-From Coq Require Import List ZArith String.
-From Mkdb Require Import Model.Lexer Model.Parser Spec.ParseSpec.
+(* C10 - Parsing is faithful: the text of a statement yields that statement.
+   Statements only; proofs are `exact <lemma of Proofs/ParserFaithful*.v / LexerFacts.v>`.
+
+   Level of the theorems: token lists as the parser sees them (kind, and the text of IDENT / INT /
+   STR tokens). `render o s` (Spec/ParseSpec.v) writes the tree s as tokens; `o : ropts` holds the
+   optional spellings, chosen PER OCCURRENCE: INNER written or not for each inner join, AS written
+   or not for each alias, ASC written or not for each ascending key, commas or blanks between GROUP
+   BY columns (per separator), LIMIT/OFFSET in either order, `()` for an empty INSERT column list,
+   SHOW DATABASE / SHOW <any spelling of "databases">, a trailing semicolon, and the spelling of
+   every numeral (any text strconv.Atoi reads back: "7", "007", ...). Keyword case, white space,
+   line breaks, tabs and quoting of identifiers are below this level: C10_keyword_case covers the
+   wrapper, and the correspondence run (tools/props/c10.py) renders to TEXT and goes through the
+   real scanner, checking in Coq that the text lexes to exactly `render o s`.
+
+   `wf_stmt o s` is the grammar: no NULL literal, numerals that read back (hence within int64),
+   LIMIT/OFFSET >= 0 when present and 0 when absent, the asterisk only as the whole select list,
+   a non-empty select list, AND chains of comparisons nested to the right whose last element may be
+   a bare value, OR of AND chains nested to the right, left-deep joins with a table name on the
+   right and no FULL join, nothing after the select list when there is no FROM, and the GROUP BY
+   consistency that validateGroupByFields enforces. Names are arbitrary IDENT texts (also "" and
+   keywords, which the text level writes as delimited identifiers). *)
+From Coq Require Import List ZArith String Bool.
+From Mkdb Require Import Model.Lexer Model.Parser Spec.ParseSpec Spec.ParseObs
+  Proofs.ParserFaithful Proofs.ParserFaithful2 Proofs.LexerFacts Proofs.ParseObsFacts.
+Import ListNotations.
+
+(* every spelling of every statement of the grammar parses to that statement *)
+Theorem C10_roundtrip : forall o s toks,
+  wf_stmt o s = true -> renders o s toks -> parse toks = POk s.
+Proof. intros o s toks W R. rewrite R. exact (roundtrip o s W). Qed.
+Print Assumptions C10_roundtrip.
+
+(* the same from the numbered tokens of the Go TokenList *)
+Theorem C10_roundtrip_tokens : forall o s toks,
+  wf_stmt o s = true -> renders o s (map classify toks) -> parse_tokens toks = POk s.
+Proof. exact roundtrip_tokens. Qed.
+Print Assumptions C10_roundtrip_tokens.
+
+(* No clause written in standard form is silently cut short: for a statement in standard form
+   (wf_stmt_syn = wf_stmt without the GROUP BY consistency) the parser returns exactly that
+   statement - every element of the select list, VALUES rows and values, SET assignments,
+   GROUP BY, ORDER BY, column definitions, insert column list - or an error (the GROUP BY
+   validation error); never another statement. *)
+Theorem C10_lists_complete : forall o s,
+  wf_stmt_syn o s = true ->
+  parse (render o s) = POk s \/ exists e, parse (render o s) = PErr e.
+Proof. exact lists_complete. Qed.
+Print Assumptions C10_lists_complete.
+
+Theorem C10_no_silent_change : forall o s s',
+  wf_stmt_syn o s = true -> parse (render o s) = POk s' -> s' = s.
+Proof. exact no_silent_change. Qed.
+Print Assumptions C10_no_silent_change.
+
+(* the token wrapper does not depend on the letter case of keyword texts: changing the ASCII case
+   of any raw token whose upper-cased text is a keyword leaves the classified token list - hence
+   the parse - unchanged *)
+Theorem C10_keyword_case : forall raws raws',
+  Forall2 kwcase_variant raws raws' -> map classify (wrap raws) = map classify (wrap raws').
+Proof. exact keyword_case. Qed.
+Print Assumptions C10_keyword_case.
+
+Corollary C10_keyword_case_parse : forall raws raws',
+  Forall2 kwcase_variant raws raws' -> parse_pipeline raws = parse_pipeline raws'.
+Proof. intros raws raws' F. unfold parse_pipeline, parse_tokens. rewrite (keyword_case raws raws' F). reflexivity. Qed.
+Print Assumptions C10_keyword_case_parse.
+
+(* a word in any letter case of a keyword string of the generated table becomes that keyword *)
+Theorem C10_keyword_any_case : forall code kw t peek,
+  In (code, kw) keyword_entries -> supper t = kw ->
+  fst (wrap_one (mkRaw RIdent t peek)) = mkTok code t.
+Proof. exact keyword_any_case. Qed.
+Print Assumptions C10_keyword_any_case.
+
+(* facts about the CURRENT generated table, by computation *)
+Theorem C10_keywords_upper_case_and_distinct :
+  forallb (fun p => no_lower_ascii (snd p) && String.eqb (kw_upper (snd p)) (snd p)) keyword_entries = true /\
+  distinct_strings (map snd keyword_entries) = true.
+Proof. exact (conj keywords_upper_case keywords_distinct). Qed.
+Print Assumptions C10_keywords_upper_case_and_distinct.
+
+(* AND groups tighter than OR: `p1 AND p2 OR p3` is (p1 AND p2) OR p3, and `p1 OR p2 AND p3` is
+   p1 OR (p2 AND p3), for all comparisons p1 p2 p3 *)
+Theorem C10_and_binds_tighter : forall o p1 p2 p3 fuel rest,
+  wf_cmp o p1 = true -> wf_cmp o p2 = true -> wf_cmp o p3 = true -> ext_or (hdk rest) = false ->
+  length (r_cmp o p1 ++ K KAnd :: r_cmp o p2 ++ K KOr :: r_cmp o p3 ++ rest) < fuel ->
+  or_cond fuel (r_cmp o p1 ++ K KAnd :: r_cmp o p2 ++ K KOr :: r_cmp o p3 ++ rest)
+    = POk (EOr (EAnd p1 (pred_of p2)) (pred_of p3), rest) /\
+  or_cond fuel (r_cmp o p1 ++ K KOr :: r_cmp o p2 ++ K KAnd :: r_cmp o p3 ++ rest)
+    = POk (EOr (pred_of p1) (EAnd p2 (pred_of p3)), rest).
+Proof. exact and_binds_tighter. Qed.
+Print Assumptions C10_and_binds_tighter.
+
+(* the comparison used by the correspondence runs is Leibniz equality of trees *)
+Theorem C10_stmt_eqb_is_equality : forall a b, stmt_eqb a b = true <-> a = b.
+Proof. exact stmt_eqb_spec. Qed.
+Print Assumptions C10_stmt_eqb_is_equality.
+
+(* ---- non-vacuity ---- *)
+Local Open Scope string_scope.
+Local Open Scope Z_scope.
+
+Definition ex_opts : ropts :=
+  mkOpts (num_of [(5, "005"); (10, "10"); (1, "1")]) [false; true] [true; false] [true] [false] true false None true.
+
+(* SELECT u.name, count( * ) AS n FROM users u INNER JOIN orders o ON u.id = o.uid AND o.total > 10 OR o.x = 1
+   LEFT JOIN t ON a = b WHERE u.id != 5 GROUP BY u.name ORDER BY n ASC, u.name DESC OFFSET 5 LIMIT 10 ; *)
+Definition ex_stmt : stmt :=
+  SSelect (mkSelect
+    [mkDC (SPExpr (EVal (XCol (mkCol "u" "name")))) ""; mkDC (SPCount None) "n"]
+    [TRJoin (TRJoin (TRName "users" (Some "u")) JInner (TRName "orders" (Some "o"))
+               (EOr (EAnd (XCol (mkCol "u" "id"), CEq, XCol (mkCol "o" "uid"))
+                          (EPred (XCol (mkCol "o" "total")) CGt (XLit (VInt 10))))
+                    (EPred (XCol (mkCol "o" "x")) CEq (XLit (VInt 1)))))
+            JLeft (TRName "t" None) (EPred (XCol (mkCol "" "a")) CEq (XCol (mkCol "" "b")))]
+    (Some (EPred (XCol (mkCol "u" "id")) CNeq (XLit (VInt 5))))
+    [mkCol "u" "name"]
+    [mkSort (mkCol "" "n") SAsc; mkSort (mkCol "u" "name") SDesc]
+    true true 10 5).
+
+Example C10_ex_wf : wf_stmt ex_opts ex_stmt = true.
+Proof. vm_compute. reflexivity. Qed.
+
+Example C10_ex_tokens : length (render ex_opts ex_stmt) = 70%nat.
+Proof. vm_compute. reflexivity. Qed.
+
+Example C10_ex_roundtrip : parse (render ex_opts ex_stmt) = POk ex_stmt.
+Proof. vm_compute. reflexivity. Qed.
+
+(* a statement in standard form that the GROUP BY validation rejects: an error, not a cut list *)
+Example C10_ex_rejected :
+  let s := SSelect (mkSelect [mkDC (SPCount None) ""; mkDC (SPExpr (EVal (XCol (mkCol "" "a")))) ""]
+                             [TRName "t" None] None [mkCol "" "b"] [] false false 0 0) in
+  wf_stmt_syn ex_opts s = true /\ parse (render ex_opts s) = PErr EInvalidGroupBy.
+Proof. vm_compute. split; reflexivity. Qed.
+
+Example C10_ex_group_by_commas :
+  let s := SSelect (mkSelect [mkDC (SPExpr (EVal (XCol (mkCol "" "a")))) ""; mkDC (SPExpr (EVal (XCol (mkCol "" "b")))) ""]
+                             [TRName "t" None] None [mkCol "" "a"; mkCol "" "b"] [] false false 0 0) in
+  wf_stmt (mkOpts (num_of []) [] [] [] [true] false false None true) s = true /\
+  render (mkOpts (num_of []) [] [] [] [true] false false None true) s = [K KSelect; r_ident "a"; K KComma; r_ident "b"; K KFrom; r_ident "t"; K KGroup; K KBy;
+                      r_ident "a"; K KComma; r_ident "b"; K KOther] /\
+  parse (render (mkOpts (num_of []) [] [] [] [true] false false None true) s) = POk s.
+Proof. vm_compute. repeat split; reflexivity. Qed.
